@@ -298,7 +298,53 @@ func fineSubWhileTopicDeleting(seed uint64) []lib.Case {
 	return []lib.Case{cr.finish("sub-vs-topic-delete#"+strconv.FormatUint(seed, 10), seed, nil, nil)}
 }
 
+// ---- K3: graceful Exit while the consumer pump holds a dequeued message that is not yet
+// registered in flight (C05): the message is neither in the memory queue nor in the
+// in-flight map when Channel.flush runs ----
+func fineExitWhileDelivering(seed uint64) []lib.Case {
+	cr := newFineCase(seed, 3)
+	cr.opCreateTopic(1)
+	cr.opCreateChan(1, 1)
+	k1 := cr.opConnect(false, false)
+	cr.opSub(k1, 1, 1)
+	cr.opRdy(k1, 1)
+	reached, release := nsqd.VerifArmPark("clientpump:have-msg", 1)
+	ids, total, now := cr.rawPub(1, 1)
+	ok := waitReached(reached, 3*time.Second)
+	cr.tag(fmt.Sprintf("delivery-parked=%v", ok))
+	cr.ev(fmt.Sprintf("EOp (OPub 1 false [%s]%%N %d 0%%Z %s) ROk", strings.Join(ids, ";"), total, z(now)))
+	cr.opRestartWith(release)
+	return []lib.Case{cr.finish("exit-vs-deliver#"+strconv.FormatUint(seed, 10), seed, nil, nil, "kf=K3")}
+}
+
+// ---- graceful Exit while a REQ is between its in-flight pop and its re-queue (C05; the
+// loss this used to cause was repaired: F16) ----
+func fineExitWhileRequeueing(seed uint64) []lib.Case {
+	cr := newFineCase(seed, 3)
+	cr.opCreateTopic(1)
+	cr.opCreateChan(1, 1)
+	k1 := cr.opConnect(false, false)
+	cr.opSub(k1, 1, 1)
+	cr.opRdy(k1, 1)
+	cr.opPub(1, 1, false, false)
+	tg, id, okh := cr.someHeld(k1)
+	if !okh {
+		return []lib.Case{cr.finish("exit-vs-req-setup-failed#"+strconv.FormatUint(seed, 10), seed, nil, nil)}
+	}
+	reached, release := nsqd.VerifArmPark("req:after-pop", 1)
+	now := cr.now()
+	k1.c.write([]byte("REQ " + id + " 0\n"))
+	ok := waitReached(reached, 3*time.Second)
+	cr.tag(fmt.Sprintf("req-parked=%v", ok))
+	cr.ev(fmt.Sprintf("EOp (OReq %d %d 0%%Z %s) ROk", k1.k, tg, z(now)))
+	delete(k1.held, tg)
+	cr.opRestartWith(release)
+	return []lib.Case{cr.finish("exit-vs-req#"+strconv.FormatUint(seed, 10), seed, nil, nil)}
+}
+
 var fineScenarios = map[string]func(uint64) []lib.Case{
+	"exit-vs-deliver":       fineExitWhileDelivering,
+	"exit-vs-req":           fineExitWhileRequeueing,
 	"pump-vs-sub":           fineSubWhilePumpBusy,
 	"deliver-vs-empty":      fineEmptyWhileDelivering,
 	"fin-vs-empty":          fineEmptyWhileFinishing,
@@ -312,5 +358,5 @@ var fineByProfile = map[string][]string{
 	"c03": {"fin-vs-empty", "deliver-vs-empty"},
 	"c13": {"fin-vs-empty", "deliver-vs-empty"},
 	"c02": {},
-	"c05": {},
+	"c05": {"exit-vs-deliver", "exit-vs-req"},
 }
